@@ -393,9 +393,9 @@ fn worker(build: &str, seed: u64, n_calls: u64, index: u64, of: u64, trace: bool
         st.calls += 1;
         *st.by_func.entry(call.func_id()).or_default() += 1;
         probe_call(&call, &mut st);
-        // One call in eight runs on a thread of its own: whatever the library
+        // One call in 32 runs on a thread of its own: whatever the library
         // keeps per thread is then in its first-use state for that call.
-        let fresh_thread = rng.chance(1, 8);
+        let fresh_thread = rng.chance(1, 32);
         if fresh_thread {
             *st.probes.entry("call_executed_on_a_fresh_thread").or_default() += 1;
         }
@@ -1090,7 +1090,7 @@ fn list_passes(seed: u64, idx: u64) -> i32 {
         Call::Func { args, .. } | Call::Chain { args, .. } => args.vals(),
         _ => None,
     };
-    let _fresh_thread = rng.chance(1, 8);
+    let _fresh_thread = rng.chance(1, 32);
     let r = run_pass(&call, &funcs, vals.as_ref(), &Pass::CONTROL);
     let mut passes = vec![Pass::CONTROL];
     if !r.panicked {
